@@ -18,6 +18,7 @@ THEOREMS = [
     "Remoc.Table.Sys.clean_termination",
     "Remoc.Table.Sys.clean_termination_reclaims",
     "Remoc.Table.Sys.internal_steps_terminate",
+    "Remoc.Table.Sys.wireInvB_reachable",
 ]
 RULE = ("settle-separated scripts on two real endpoints: concurrent connects (wait and no-wait), accepts, inspected requests "
         "accepted/rejected/dropped, port batches over ports, cancelled calls, drops of senders/receivers/clients/listeners in "
